@@ -1,2 +1,2 @@
 SPECIFICATION TSpec
-INVARIANTS TSameExchange TComputedFromThem THalfRTT
+INVARIANTS TSameExchange TComputedFromThem THalfRTT TNoPanic
